@@ -7,6 +7,7 @@
 //	R3  os.Stat / os.Lstat           -> verifsim.*
 //	R4  os.Stdout                    -> verifsim.Stdout()   (a *verifsim.File in sink mode)
 //	R9  the type os.File             -> verifsim.File       (so that code which names the type keeps compiling)
+//	R10 runtime.Gosched()            -> verifsim.Gosched()  (a politely spinning goroutine parks at the scheduler like at any other schedule point)
 //	R5  time.Now                     -> verifsim.Now
 //	R6  user.Current                 -> verifsim.CurrentUser
 //	R7  ch <- v, select with a send case, go func(){...}  -> verifsim.Yield(site) inserted before
@@ -127,8 +128,9 @@ var redirect = map[string]map[string]string{
 	"os":      {"Open": "Open", "OpenFile": "OpenFile", "ReadFile": "ReadFile", "Stat": "Stat", "Lstat": "Lstat"},
 	"time":    {"Now": "Now"},
 	"os/user": {"Current": "CurrentUser"},
+	"runtime": {"Gosched": "Gosched"},
 }
-var ruleOf = map[string]string{"Open": "R2", "OpenFile": "R2", "ReadFile": "R2", "Stat": "R3", "Lstat": "R3", "Now": "R5", "Current": "R6"}
+var ruleOf = map[string]string{"Open": "R2", "OpenFile": "R2", "ReadFile": "R2", "Stat": "R3", "Lstat": "R3", "Now": "R5", "Current": "R6", "Gosched": "R10"}
 
 func doFile(p *packages.Package, f *ast.File, path string) error {
 	fset := p.Fset
@@ -296,7 +298,7 @@ func doFile(p *packages.Package, f *ast.File, path string) error {
 		return nil
 	}
 	astutil.AddImport(fset, f, *simPkg)
-	for _, imp := range []string{"os", "time", "os/user"} {
+	for _, imp := range []string{"os", "time", "os/user", "runtime"} {
 		if !astutil.UsesImport(f, imp) {
 			astutil.DeleteImport(fset, f, imp)
 		}
